@@ -199,6 +199,24 @@ def main(tier_: str) -> int:
                 r = fetch(path_of(pl))
                 if r.status_code == 200:
                     lines.append(doc_line(path_of(pl), r.data, r.status_code) | {'patchdoc': 1})
+            # ---- young streams at sub-second instants: every quantity derived from (now - start) is computed from a clock with a
+            # fractional second; the stream is younger than its time-shift buffer (start=now, or an explicit start a few seconds ago)
+            young = 0
+            fracs = (0, 250000, 500000, 500001, 750000, 999999)
+            for us in (fracs if tier_ == 'thorough' else (0, 750000) + tuple(rng.sample(fracs[1:], 2))):
+                inst = now.replace(microsecond=us)
+                da.clock.set(inst)
+                ago = (inst - datetime.timedelta(seconds=rng.choice([15, 45, 61]))).replace(microsecond=0)
+                for q in ('start=now', f'start={ago.strftime("%Y-%m-%dT%H:%M:%SZ")}&depth=120', 'start=now&timeline=1',
+                          f'start={ago.strftime("%Y-%m-%dT%H:%M:%SZ")}&depth=120&timeline=1'):
+                    for u in (f'/mps/live/testmps/hand_made.mpd?{q}', f'/dash/live/bbb/hand_made.mpd?{q}', f'/dash/live/bbb/manifest_n.mpd?{q}',
+                              f'/mps/live/testmps/manifest_e.mpd?{q}'):
+                        r = fetch(u)
+                        if r.status_code != 200:
+                            refused += 1
+                            continue
+                        young += 1
+                        lines.append(doc_line(u + f'#clock=.{us:06d}', r.data, r.status_code))
             # ---- hostile strings: skeleton with hostile == skeleton with benign -------------------------------
             da.clock.set(now)
             pair_urls = []
@@ -263,7 +281,7 @@ def main(tier_: str) -> int:
             'evaluations': len(docs) + len(pairs), 'distinct_nontrivial': len({x['url'] for x in docs}) + len({(x['url'], x['hostile']) for x in pairs}),
             'rule': 'one evaluation per manifest / patch document, or per (hostile, benign) document pair; distinct = distinct URLs (x hostile string)',
             'exhaustive': False, 'documents': len(docs), 'pairs': len(pairs), 'refused': refused, 'broken_catalogue': len(broken_catalogue()),
-            'patch_documents': sum(1 for x in docs if x.get('patchdoc')),
+            'patch_documents': sum(1 for x in docs if x.get('patchdoc')), 'young_stream_documents': young,
             'samples': [{'url': docs[0]['url'], 'root_attrs': docs[0]['tree']['attrs'][:4]}, {k: pairs[0][k] for k in ('url', 'hostile', 'found')}],
             'bounds': f'tier {tier_}: 9 .mpd templates + patch template x supported modes x single/multi-period x option vectors; '
                       f'{len(HOSTILE)} hostile strings through titles, licence URLs, query values',
